@@ -9,7 +9,9 @@ qm_c09 — driver for M-Types (relation, narrowing, inhabitation). One request p
   (reset)                           back to the table of the last `table` request → ok
   (class t)                                                         → fo=<b> closed=<b>
   (classes)                         one char per type id: f = first-order cycle-free (and closed),
-                                    c = closed contractive, x = neither → string over f c x
+                                    r = closed contractive recursive first-order (no function / process
+                                    component: `compat_sound_rec_fo` applies), c = closed contractive,
+                                    x = neither → string over f r c x
   (compat a b) | (overlap a b)                                      → true | false | fuel-out
   (matrix compat|overlap id…)       all ordered pairs of the ids, row-major → string over t f ?
   (inh t <value> st…)               inhabitation below the boundaries st (top first; default none)
@@ -115,7 +117,7 @@ def c09Step (s : C09State) (req : List Sx) : C09State × String :=
   | [.list [.atom "classes"]] =>
     let n := T.types.length + 1
     let cs := (List.range T.types.length).map (fun t =>
-      if foB T n t then 'f' else if closedB T n [] t then 'c' else 'x')
+      if foB T n t then 'f' else if closedB T n [] t then (if rfoB T n t then 'r' else 'c') else 'x')
     (s, String.ofList cs)
   | [.list [.atom "compat", a, b]] =>
     match a.asNat, b.asNat with
